@@ -180,7 +180,16 @@ func runC07(t *vs.Tape, cfg map[string]string) (res vs.Result) {
 		c.Inc("runs_bg_on")
 	}
 	res.Digest = vs.Hash(maskAuto(trace)...)
-	res.Nontrivial = inflightImages > 0
+	// (logical rule, so that it does not depend on where Pebble's background
+	// work happened to land: a history with at least one mutation always has
+	// crash points inside that mutation's window)
+	nMut := 0
+	for _, h := range hist {
+		if h.mutation {
+			nMut++
+		}
+	}
+	res.Nontrivial = nMut > 0
 	res.Sample = map[string]any{"ops": maskAuto(trace), "crash_points": len(log) - base + 1, "images": images, "bg": bg}
 	return
 }
